@@ -140,9 +140,9 @@ func (b *c24LB) state0() connectivity.State {
 	return b.st0
 }
 
-func (b *c24LB) ResolverError(error)                                          {}
+func (b *c24LB) ResolverError(error)                                        {}
 func (b *c24LB) UpdateSubConnState(balancer.SubConn, balancer.SubConnState) {}
-func (b *c24LB) ExitIdle()                                                    {}
+func (b *c24LB) ExitIdle()                                                  {}
 func (b *c24LB) Close() {
 	b.mu.Lock()
 	b.closed = true
@@ -220,9 +220,9 @@ func (p *c24Picker) nPicks() int {
 // c24ConnPlan says what the n-th dial does.
 type c24ConnPlan struct {
 	Settings []http2.Setting
-	Fail     error          // dialer returns this error
-	Hang     bool           // dialer blocks until its ctx ends
-	Listener *wire.Listener // connect to a real server instead of a raw peer
+	Fail     error                   // dialer returns this error
+	Hang     bool                    // dialer blocks until its ctx ends
+	Listener *wire.Listener          // connect to a real server instead of a raw peer
 	Custom   func(server *wire.Conn) // the harness plays the server end itself (no raw peer is created)
 }
 
